@@ -220,6 +220,48 @@ func c37(r *core.Run) {
 				name := core.CalleeName(&x.Call)
 				short := name[strings.LastIndex(name, ".")+1:]
 				args := core.CallArgs(&x.Call)
+				// S8: a peer-controlled signed integer handed, as an integer, to code outside
+				// the analysed protocol packages (topology, stores, …) is proven >= 0 at the
+				// call: counts, limits and sizes are sliced / allocated with over there
+				if callee := x.Call.StaticCallee(); (callee == nil || !inSet[callee]) && !strings.HasPrefix(name, "fmt.") && !strings.HasPrefix(name, "(time.") && !strings.HasPrefix(name, "time.") && !strings.HasPrefix(name, "math") && !strings.HasPrefix(name, "strconv.") && !strings.HasPrefix(name, "(*sync/atomic") && !strings.HasPrefix(name, "sync/atomic") {
+					if _, isBuiltin := x.Call.Value.(*ssa.Builtin); !isBuiltin {
+						for _, a := range x.Call.Args {
+							b, ok := a.Type().Underlying().(*types.Basic)
+							if !ok || b.Info()&types.IsInteger == 0 || b.Info()&types.IsUnsigned != 0 || !t.Tainted(a) {
+								continue
+							}
+							if _, isConst := a.(*ssa.Const); isConst {
+								continue
+							}
+							desc := "peer-controlled integer " + core.Path(a) + " handed to " + short
+							lo := seededIA(fn).ValueAt(a, x).Lo
+							// a value merged from a peer-controlled and a locally configured
+							// source: only the peer-controlled incoming edges are the peer's
+							if cv, ok := a.(*ssa.Convert); ok {
+								if phi, ok := cv.X.(*ssa.Phi); ok && lo < 0 {
+									plo, any := int64(1<<62), false
+									for i, e := range phi.Edges {
+										if !t.Tainted(e) {
+											continue
+										}
+										any = true
+										if v := seededIA(fn).ValueOnEdge(e, core.Edge{From: phi.Block().Preds[i], To: phi.Block()}).Lo; v < plo {
+											plo = v
+										}
+									}
+									if any {
+										lo = plo
+									}
+								}
+							}
+							if lo >= 0 {
+								oks = append(oks, finding{fn, in, "C37.S8", desc + " is proven non-negative", ""})
+							} else {
+								sinks = append(sinks, finding{fn, in, "C37.S8", desc, fmt.Sprintf("its lowest possible value at the call is %s: a negative count/limit sent by the peer reaches code that slices or allocates with it", fmtBound(lo))})
+							}
+						}
+					}
+				}
 				// S2 Must*
 				if strings.HasPrefix(short, "Must") {
 					for _, a := range args {
